@@ -11,7 +11,7 @@ from harness import treeops as T
 
 PROPERTY = 'C09'
 LEVEL = 'model_checking'
-REACH_POINTS = ['events.checked', 'events.disabled', 'fresh.checked']
+REACH_POINTS = ['events.after_shift', 'events.checked', 'events.disabled', 'fresh.checked']
 
 LOG = []
 
@@ -256,6 +256,57 @@ def _events_body(params, v0, v1, v2, v3, t, i, vk, w, w2, mode):
   return None
 
 
+SHIFT_FIRST = ['rebind_multi', 'rebind_multi_far', 'insert', 'delitem', 'pop', 'rebind_insert', 'rebind_missing', 'set_slice',
+               'del_slice', 'reverse', 'remove', 'iadd']
+
+
+def h_events_after_shift(params, i, k, vk):
+  """Two calls: an index-shifting operation on a list of subscribing containers, then an ordinary write inside one of its
+  (possibly shifted) elements. The second call's events name the element's location as it is now."""
+  op = params['op']
+  i, k, vk = concretize(i, range(0, 5)), concretize(k, range(0, 5)), concretize(vk, (0, 1))
+  with untraced():
+    h = [None]
+    lst = pg.List([pg.Dict(a=1), pg.Dict(a=2), pg.Dict(a=3), pg.Dict(a=4)], onchange_callback=_cb(h))
+    h[0] = lst
+    h2 = [None]
+    root = pg.Dict(l=lst, n=0, onchange_callback=_cb(h2))      # (untyped: the missing-value marker deletes list elements)
+    h2[0] = root
+    lst = root.l
+    h[0] = lst
+    nodes = nodes_of(root)
+    t = [x for x, n_ in enumerate(nodes) if n_ is lst][0]
+    val = 50 if vk == 0 else pg.Dict(a=50)
+    try:
+      T.apply_op(op, root, nodes, t, i, val, 60)
+    except T.EXPECTED_ERRORS:
+      raise Assume()
+    kids = [(idx, c) for idx, c in enumerate(lst) if isinstance(c, pg.Dict)]
+    if not 0 <= k < len(kids):
+      raise Assume()
+    idx, child = kids[k]
+    reach('events.after_shift')
+    del LOG[:]
+    child.a = 99
+    log = list(LOG)
+    want = {id(lst): f'[{idx}].a', id(root): f'l[{idx}].a'}
+    seen = set()
+    for recv, payload in log:
+      if id(recv) not in want:
+        return Violation(f'after_shift:{op}:unexpected_receiver', type(recv).__name__)
+      seen.add(id(recv))
+      keys = [str(r) for r in payload]
+      if keys != [want[id(recv)]]:
+        return Violation(f'after_shift:{op}:event_names_other_location', f'element now at index {idx}; '
+                         f'{type(recv).__name__} was told {keys!r}, expected {want[id(recv)]!r}')
+      upd = list(payload.values())[0]
+      if upd.new_value != 99 or str(upd.path) != f'l[{idx}].a':
+        return Violation(f'after_shift:{op}:payload_wrong', f'{upd.path} {upd.new_value!r}')
+    if seen != set(want):
+      return Violation(f'after_shift:{op}:subscriber_not_notified', f'{len(seen)} of 2 subscribers')
+  return None
+
+
 def _facts(n):
   return dict(partial=n.sym_partial, missing=pg.to_json(n.sym_missing(flatten=True)),
               nondefault=sorted(str(k) for k in n.sym_nondefault(flatten=True)),
@@ -353,6 +404,9 @@ def shards(tier, seed):
                           expect_s=50, per_path_s=15))
       else:
         out.append(dict(name=f'{fam}:{op}', fn=fn, params=dict(op=op), args=_ARGS, budget_s=b * 2, expect_s=30, per_path_s=15))
+  for op in SHIFT_FIRST:
+    out.append(dict(name=f'after_shift:{op}', fn='h_events_after_shift', params=dict(op=op), args=[('i', 'int'), ('k', 'int'), ('vk', 'int')],
+                    budget_s=b, expect_s=10, per_path_s=15))
   return out
 
 
